@@ -504,6 +504,12 @@ func runC02_5(c *core.Ctx) {
 			if e.Cond != nil && e.Tag == nil && a.etCond(f, e.Cond) && e.Sense {
 				return s &^ NEED // edge-triggered registration always includes write interest
 			}
+			// the connection is already closed: nothing can or needs to be flushed any more
+			if e.Cond != nil && e.Tag == nil && !e.Sense {
+				if sel, ok := ast.Unparen(e.Cond).(*ast.SelectorExpr); ok && flow.FieldOf(f.Info, sel) == a.v.opened {
+					return s &^ NEED
+				}
+			}
 			// error edges: a failing write/open/flush buffered nothing further; the connection is closed (C18.3) or the engine is stopping
 			if e.Cond != nil && e.Tag == nil {
 				if x, y, op, ok := flow.Cmp(e.Cond); ok && flow.IsNil(f.Info, y) && isErrorType(f.Info.TypeOf(x)) && (op == token.NEQ) == e.Sense {
